@@ -836,7 +836,7 @@ Lemma build_with_keeps_plain dl nl fuel x w st s : xplain_at w x -> build_with d
   exists w', witness_in s w' /\ s_name w' = xname w.
 Proof.
   intros Hp H. unfold build_with in H.
-  destruct (bnode dl nl fuel x x None false 0 {| b_count := 1; b_maxdepth := 0 |})
+  destruct (bnode dl nl fuel x x None false 0 bstate0)
     as [st1 [ks| |]] eqn:E; try discriminate.
   injection H as <- <-.
   eapply (bnode_keeps_plain _ _ w x Hp) in E. destruct E as (x' & w' & -> & Hp' & Hnm).
@@ -914,27 +914,37 @@ Proof.
 Qed.
 End Preserved.
 
-Lemma parse_total x : parse x <> POutOfFuel.
+Lemma parse_of_total b : snd b <> OOut -> parse_of b <> POutOfFuel.
 Proof.
-  unfold parse. destruct (build_inv x) as [H _]. destruct (build x) as [st [s| |]]; try discriminate.
-  - destruct (convert (prepass s)) as [out c|] eqn:E; [discriminate|]. exfalso. exact (convert_terminates _ E).
-  - exfalso. apply H. reflexivity.
+  destruct b as [st [s|k|]]; cbn [snd parse_of]; intro H; try discriminate; [|congruence].
+  destruct (convert (prepass s)) as [out c|] eqn:E; [discriminate|]. exfalso. exact (convert_terminates _ E).
+Qed.
+
+Lemma parse_total x : parse x <> POutOfFuel.
+Proof. exact (parse_of_total (build x) (proj1 (build_inv x))). Qed.
+
+Lemma parse_of_keeps_witness b nm :
+  snd b <> OOut -> (forall st s, b = (st, OOk s) -> has_witness (Some nm) s) ->
+  match parse_of b with
+  | POk out _ => In nm (item_names out)
+  | PErr => exists k, snd b = OErr k
+  | POutOfFuel => False
+  end.
+Proof.
+  destruct b as [st [s|k|]]; cbn [snd parse_of]; intros Ho Hw; [|exists k; reflexivity|congruence].
+  assert (Hpre : has_witness (Some nm) (prepass s)).
+  { apply prepass_preserves; [intros; apply set_none_witness; assumption|]. apply (Hw st s eq_refl). }
+  destruct Hpre as (w2 & Hw2 & Hn2).
+  destruct (convert_keeps_witness (prepass s) w2 nm Hw2 Hn2) as (out & c & -> & Hin). exact Hin.
 Qed.
 
 Lemma parse_keeps_witness x w nm : xplain_at w x -> xname w = Some nm ->
   match parse x with
   | POk out _ => In nm (item_names out)
-  | PErr => exists st k, build x = (st, OErr k)
+  | PErr => exists k, snd (build x) = OErr k
   | POutOfFuel => False
   end.
 Proof.
-  intros Hp Hnm. pose proof (parse_total x) as Ht. unfold parse in *.
-  destruct (build x) as [st [s| |]] eqn:Eb.
-  - destruct (build_keeps_plain x w st s Hp Eb) as (w' & Hw & Hn').
-    assert (Hpre : has_witness (Some nm) (prepass s)).
-    { apply prepass_preserves; [intros; apply set_none_witness; assumption|]. exists w'. split; [exact Hw|congruence]. }
-    destruct Hpre as (w2 & Hw2 & Hn2).
-    destruct (convert_keeps_witness (prepass s) w2 nm Hw2 Hn2) as (out & c & -> & Hin). exact Hin.
-  - exists st, k. reflexivity.
-  - apply Ht. reflexivity.
+  intros Hp Hnm. apply (parse_of_keeps_witness (build x) nm (proj1 (build_inv x))).
+  intros st s Hb. destruct (build_keeps_plain x w st s Hp Hb) as (w' & Hw & Hn'). exists w'. split; [exact Hw|congruence].
 Qed.
